@@ -20,6 +20,17 @@ CHECKS = {
         note="statements a dialect refuses to parse are outside the space; violations whose tag set strictly contains another "
              "violation's tag set in the same dialect are counted but not reported separately. " + TRUST,
         design="2/C01"),
+    "C12": dict(
+        category="model_checking", engine="E2",
+        technique="closure graph: every serde/copy transition (and 2-compositions) from every enumerated tree state must return to an equal state",
+        text="States are trees from the core grammar (k<=1, per dialect), identity.sql and optimizer/annotation fixtures, each as parsed, "
+             "after annotate_types, after qualify and after both, plus hand-decorated trees carrying comments and meta of every JSON kind. "
+             "Transitions dump+load, JSON text round trip, pickle protocols 2-5, copy, deepcopy and seven 2-step compositions are applied "
+             "to every state; each result must be == to the original, have the same structural fingerprint including public types, "
+             "comments and meta, generate the same SQL (native and base dialect), satisfy the C08 tree invariants and share no node; "
+             "dump must be JSON-serialisable and a fixpoint. The evidence reports node-class and (class, arg, value-type) coverage.",
+        note="missing arg / None / [] are identified as serde does by design. " + TRUST,
+        design="2/C12"),
     "C13": dict(
         category="exploration", engine="E1",
         technique="exhaustive enumeration of all short character strings and lexeme sequences per dialect; positions re-derived independently from the raw text",
